@@ -164,11 +164,11 @@ PROPS['C17'] = {
              '(roles, parked awaiters, lost-race count).'),
     'min_nontrivial': [200, 2000],
     'require_classes': ['shared_future_mt:awaiters_parked_before_resolution', 'shared_future_mt:awaiters_lost_race_to_ready'],
-    'single_thread_scenarios': ('shared_future_history', 'shared_future_trivial_types', 'shared_future_string_values'),
+    'single_thread_scenarios': ('shared_future_history', 'shared_future_trivial_types', 'shared_future_string_values', 'shared_future_reference_source'),
     'jobs': [
         J('hist_asan', 'c17.cpp', 'asan', [30000, 1500000], scenario='shared_future_history', threads=1),
         J('triv_asan', 'c17.cpp', 'asan', [30000, 1500000], scenario='shared_future_trivial_types', threads=1),
-        J('str_asan', 'c17.cpp', 'asan', [20000, 800000], scenario='shared_future_string_values', threads=1),
+        J('str_asan', 'c17.cpp', 'asan', [20000, 800000], scenario='shared_future_string_values,shared_future_reference_source', threads=1),
         J('mt_asan', 'c17.cpp', 'asan', [40000, 2000000], scenario='shared_future_mt'),
         J('mt_rel', 'c17.cpp', 'rel', [200000, 8000000], scenario='shared_future_mt'),
         J('mt_crel', 'c17.cpp', 'crel', [0, 3000000], scenario='shared_future_mt', tiers=(T,)),
@@ -216,7 +216,7 @@ PROPS['C02'] = {
     'min_nontrivial': [200, 2000],
     'require_classes': ['future_mt:waiter_parked_before_resolution', 'future_mt:waiter_lost_subscribe_race_to_ready', 'future_async_mt:waiter_parked_before_resolution',
                         'future_async_mt:waiter_lost_subscribe_race_to_ready'],
-    'single_thread_scenarios': ('frame_owned_parties', 'callback_awaiter_reuse'),
+    'single_thread_scenarios': ('frame_owned_parties', 'callback_awaiter_reuse', 'future_many_waiters'),
     'jobs': [
         J('mt_rel', 'c02.cpp', 'rel', [300000, 20000000], scenario='future_mt,future_async_mt', threads=6),
         J('mt_asan', 'c02.cpp', 'asan', [50000, 3000000], scenario='future_mt,future_async_mt', threads=6),
@@ -225,6 +225,7 @@ PROPS['C02'] = {
         J('owned_asan', 'c02.cpp', 'asan', [3000, 150000], scenario='frame_owned_parties', threads=1),
         J('owned_rel', 'c02.cpp', 'rel', [3000, 300000], scenario='frame_owned_parties', threads=1),
         J('reuse_asan', 'c02.cpp', 'asan', [30000, 1000000], scenario='callback_awaiter_reuse', threads=1),
+        J('many_asan', 'c02.cpp', 'asan', [30000, 1000000], scenario='future_many_waiters', threads=1),
         J('reuse_rel', 'c02.cpp', 'rel', [60000, 3000000], scenario='callback_awaiter_reuse', threads=1),
     ],
 }
@@ -422,11 +423,11 @@ PROPS['C15'] = {
              'gap class, values received per listener).'),
     'min_nontrivial': [300, 2000],
     'require_classes': ['signal_mt:listeners_that_joined_midway', 'signal_mt:listeners_that_saw_all'],
-    'single_thread_scenarios': ('signal_history', 'signal_string_values'),
+    'single_thread_scenarios': ('signal_history', 'signal_string_values', 'signal_throwing_values'),
     'jobs': [
         J('hist_asan', 'c15.cpp', 'asan', [40000, 2000000], scenario='signal_history', threads=1),
         J('mt_asan', 'c15.cpp', 'asan', [40000, 2000000], scenario='signal_mt'),
-        J('str_asan', 'c15.cpp', 'asan', [30000, 1000000], scenario='signal_string_values', threads=1),
+        J('str_asan', 'c15.cpp', 'asan', [30000, 1000000], scenario='signal_string_values,signal_throwing_values', threads=1),
         J('mt_rel', 'c15.cpp', 'rel', [150000, 8000000], scenario='signal_mt'),
         J('mt_crel', 'c15.cpp', 'crel', [0, 3000000], scenario='signal_mt', tiers=(T,)),
         J('hist_casan', 'c15.cpp', 'casan', [0, 800000], scenario='signal_history', threads=1, tiers=(T,)),
